@@ -759,9 +759,9 @@ func specHeaderAt(line []byte, c, ks, ke, vs, ve int) bool {
 // bytes it was cut from (those live in a pooled read buffer).
 //@ func btsSelectProtocol
 //@   props C17 C09
-//@   call httphead.ScanTokens havoc
 //@   ensures [copy] freshStr(ret)
 //@   ensures [none] !ok ==> len(ret) == 0
+//@   assigns nothing
 
 // RSV bit packing (C13): r1 is the most significant of the three bits.
 //@ func Rsv
@@ -839,10 +839,6 @@ func rdOf(b *bufio.Reader) io.Reader         { return b }
 //@   ensures [r] result != nil && result == ufReaderOf(w)
 //@   assigns nothing
 
-//@ func pbufio.GetWriter
-//@   ensures [w] result != nil
-//@   assigns nothing
-
 //@ func pbufio.PutReader
 //@   assigns nothing
 
@@ -861,17 +857,15 @@ func rdOf(b *bufio.Reader) io.Reader         { return b }
 //@   requires [br] br != nil
 //@   ensures [pos] linePos(br) == old(linePos(br))+1
 //@   ensures [err] result1 == ufLineErr(br, old(linePos(br)))
-//@   assigns stream(rdOf(br))
+//@   assigns instream(rdOf(br))
 
 //@ func initNonce
 //@   trusted
 //@   assigns bytes(dst)
 
-// httpWriteUpgradeRequest only writes to bw; no clause here observes bw's stream, so the frame is
-// stated as empty (the engine cannot tell a *bufio.Writer from the *bufio.Reader by type).
 //@ func httpWriteUpgradeRequest
 //@   trusted
-//@   assigns nothing
+//@   assigns outstream(wrOf(bw))
 
 //@ func matchSelectedExtensions
 //@   trusted
@@ -908,3 +902,71 @@ func rdOf(b *bufio.Reader) io.Reader         { return b }
 //@   loop 2 invariant [ok]   err == nil && br == ufReaderOf(io.Reader(conn)) && br != nil && headerSeen <= 7
 //@   loop 2 invariant [errs] forall(old(linePos(ufReaderOf(io.Reader(conn)))), linePos(br), func(i int) bool { return ufLineErr(br, i) == nil }) && linePos(br) >= old(linePos(ufReaderOf(io.Reader(conn))))
 //@   loop 2 invariant [proto] hs.Protocol == "" || exists(0, len(d.Protocols), func(i int) bool { return eqvStr(hs.Protocol, d.Protocols[i]) })
+
+// ---------------------------------------------------------------------------
+// Upgrader.Upgrade (C09, C16): decisions of the server handshake over the same ghost line sequence.
+// The two response writers are seen through a ghost marker: one Write call on the (ghost) stream
+// of the pooled writer, whose first byte tells which response it was and, for an error response,
+// whose next two bytes carry the status code.
+
+func ufWriterOf(w io.Writer) *bufio.Writer { return nil }
+
+//@ func pbufio.GetWriter
+//@   ensures [w] result != nil && result == ufWriterOf(w)
+//@   assigns nothing
+
+//@ func httpWriteResponseUpgrade
+//@   trusted
+//@   ensures [mark] outCalls(wrOf(bw)) == old(outCalls(wrOf(bw)))+1 && outLen(wrOf(bw)) == old(outLen(wrOf(bw)))+1 && outByte(wrOf(bw), old(outLen(wrOf(bw)))) == 1
+//@   assigns outstream(wrOf(bw))
+
+//@ func httpWriteResponseError
+//@   trusted
+//@   ensures [mark] outCalls(wrOf(bw)) == old(outCalls(wrOf(bw)))+1 && outLen(wrOf(bw)) == old(outLen(wrOf(bw)))+3 && outByte(wrOf(bw), old(outLen(wrOf(bw)))) == 2 && outByte(wrOf(bw), old(outLen(wrOf(bw)))+1) == byte(code>>8) && outByte(wrOf(bw), old(outLen(wrOf(bw)))+2) == byte(code)
+//@   assigns outstream(wrOf(bw))
+
+//@ func negotiateExtensions
+//@   trusted
+//@   assigns nothing
+
+//@ func btsSelectExtensions
+//@   trusted
+//@   assigns nothing
+
+//@ func btsHasToken
+//@   trusted
+//@   assigns nothing
+
+// User callbacks of the upgrader: assumed not to touch the handshake's reader/writer.
+//@ funcval func(uri []byte) error :: (uri []byte) (err error)
+//@   assigns nothing
+
+//@ funcval func(host []byte) error :: (host []byte) (err error)
+//@   assigns nothing
+
+//@ funcval func(key []byte, value []byte) error :: (key []byte, value []byte) (err error)
+//@   assigns nothing
+
+//@ funcval func() (header ws.HandshakeHeader, err error) :: () (header HandshakeHeader, err error)
+//@   assigns nothing
+
+//@ funcval func([]byte) (string, bool) :: (p []byte) (s string, ok bool)
+//@   assigns nothing
+
+//@ funcval func([]byte, []httphead.Option) ([]httphead.Option, bool) :: (p []byte, o []httphead.Option) (r []httphead.Option, ok bool)
+//@   assigns nothing
+
+//@ func httphead.ScanTokens
+//@   assigns nothing
+
+//@ func Upgrader.Upgrade
+//@   props C09 C16
+//@   requires [conn] conn != nil
+//@   ensures  [lineerr] err == nil ==> forall(old(linePos(ufReaderOf(io.Reader(conn)))), linePos(ufReaderOf(io.Reader(conn))), func(i int) bool { return ufLineErr(ufReaderOf(io.Reader(conn)), i) == nil })
+//@   ensures  [ok101]   err == nil ==> outCalls(wrOf(ufWriterOf(io.Writer(conn)))) == old(outCalls(wrOf(ufWriterOf(io.Writer(conn)))))+1 && outByte(wrOf(ufWriterOf(io.Writer(conn))), old(outLen(wrOf(ufWriterOf(io.Writer(conn)))))) == 1
+//@   ensures  [once]    outCalls(wrOf(ufWriterOf(io.Writer(conn)))) <= old(outCalls(wrOf(ufWriterOf(io.Writer(conn)))))+1
+//@   ensures  [rejcode] outCalls(wrOf(ufWriterOf(io.Writer(conn)))) == old(outCalls(wrOf(ufWriterOf(io.Writer(conn)))))+1 && outByte(wrOf(ufWriterOf(io.Writer(conn))), old(outLen(wrOf(ufWriterOf(io.Writer(conn)))))) == 2 && dynTypeIs(err, "*ws.ConnectionRejectedError") && err.(*ConnectionRejectedError).code != 0 ==> outByte(wrOf(ufWriterOf(io.Writer(conn))), old(outLen(wrOf(ufWriterOf(io.Writer(conn)))))+1) == byte(err.(*ConnectionRejectedError).code>>8) && outByte(wrOf(ufWriterOf(io.Writer(conn))), old(outLen(wrOf(ufWriterOf(io.Writer(conn)))))+2) == byte(err.(*ConnectionRejectedError).code)
+//@   ensures  [plain500] outCalls(wrOf(ufWriterOf(io.Writer(conn)))) == old(outCalls(wrOf(ufWriterOf(io.Writer(conn)))))+1 && outByte(wrOf(ufWriterOf(io.Writer(conn))), old(outLen(wrOf(ufWriterOf(io.Writer(conn)))))) == 2 && !dynTypeIs(err, "*ws.ConnectionRejectedError") ==> outByte(wrOf(ufWriterOf(io.Writer(conn))), old(outLen(wrOf(ufWriterOf(io.Writer(conn)))))+1) == 0x01 && outByte(wrOf(ufWriterOf(io.Writer(conn))), old(outLen(wrOf(ufWriterOf(io.Writer(conn)))))+2) == 0xf4
+//@   ensures  [errresp] err != nil && outCalls(wrOf(ufWriterOf(io.Writer(conn)))) == old(outCalls(wrOf(ufWriterOf(io.Writer(conn)))))+1 ==> outByte(wrOf(ufWriterOf(io.Writer(conn))), old(outLen(wrOf(ufWriterOf(io.Writer(conn)))))) == 2 || outByte(wrOf(ufWriterOf(io.Writer(conn))), old(outLen(wrOf(ufWriterOf(io.Writer(conn)))))) == 1
+//@   loop 1 invariant [rd] forall(old(linePos(ufReaderOf(io.Reader(conn)))), linePos(br), func(i int) bool { return ufLineErr(br, i) == nil }) && linePos(br) >= old(linePos(ufReaderOf(io.Reader(conn)))) && br == ufReaderOf(io.Reader(conn)) && br != nil && bw == ufWriterOf(io.Writer(conn)) && bw != nil
+//@   loop 1 invariant [wr] outCalls(wrOf(bw)) == old(outCalls(wrOf(ufWriterOf(io.Writer(conn))))) && outLen(wrOf(bw)) == old(outLen(wrOf(ufWriterOf(io.Writer(conn))))) && headerSeen <= 31 && len(nonce) == 24
